@@ -36,7 +36,7 @@ def run_plan(prop, plan, fresh=False):
     status = "ok"
     errors = []
     for name, leg in legs.items():
-        r = runner.run_leg_fresh_interpreter(leg) if fresh else runner.run_leg_forked(leg)
+        r = runner.run_leg_fresh_interpreter(leg) if (fresh or leg.get("fresh")) else runner.run_leg_forked(leg)
         res[name] = r
         if r.get("status") in ("harness_error", "timeout"):
             status = r["status"]
